@@ -42,6 +42,16 @@ STRUCTS = {
     'PQ': (True, [('h', 'H'), ('q', 'Q'), ('u', 'B')]),
     'SL': (False, [('a', 'i'), ('l', 'l'), ('u', 'L'), ('b', 'i')]),
 }
+# "state" structs {P a; P b; N c}: two adjacent equal items are pooled by the checker (enc_count, is_complex, got_Z,
+# enc_packmode carried across items); the third item presents every kind next.
+STATE_P = ['Zd', 'Zf', 'd', 'f', 'i']
+STATE_N = ['d', 'f', 'Zd', 'Zf', 'i', 'g']
+STATE_NAMES = []
+for _p in STATE_P:
+    for _n in STATE_N:
+        _nm = 'X%s_%s' % (_p.replace('Z', 'c'), _n.replace('Z', 'c'))
+        STRUCTS[_nm] = (False, [('a', _p), ('b', _p), ('c', _n)])
+        STATE_NAMES.append(_nm)
 MODULE_OF = {}     # dtype name -> module index
 
 
@@ -93,7 +103,7 @@ def dtypes():
     for d in ds:
         d['slots'] = slots_of(d['key'])
         d['size'] = ctypes.sizeof(_ctype(d['key']))
-        d['read'] = d['key'] not in ('O', 'g', 'AR')
+        d['read'] = d['key'] not in ('O', 'g', 'AR') and not d['key'].endswith('_g')
     return ds
 
 
@@ -550,10 +560,28 @@ def gen_format_cases(ctx, ds):
         for f in good[k]:
             cases.append((k, f, d['size']))
     sp_dt = [k for k, d in enumerate(ds) if d['name'] in ('int', 'char', 'schar', 'float', 'cfloat', 'long', 'ldouble', 'obj',
-                                                          'FF', 'SA', 'PA', 'AR', 'SI', 'SN', 'SC', 'SL', 'uchar', 'llong', 'cdouble')]
+                                                          'FF', 'SA', 'PA', 'AR', 'SI', 'SN', 'SC', 'SL', 'uchar', 'llong', 'cdouble',
+                                                          'Xcd_d', 'Xcd_cf', 'Xcf_f', 'Xd_cd', 'Xi_d')]
     for f in SPECIALS:
         for k in sp_dt:
             cases.append((k, f, ds[k]['size']))
+    # checker state carried across items x every item kind next
+    prefixes = ["ZdZd", "ZfZf", "2Zd", "Zd2Zd", "ZdZd:n:", "ZdZdx", "ZfZf4x", "=ZdZd", "^ZfZf", "Zd Zd", "dd", "ff", "2d", "ii", "2i", "=ii",
+                "ZgZg", "Zd", "Zf", "T{ZdZd}", "T{ZfZf}", "ZdZd@", "ZdZd=", "dZdZd", "fZfZf", "(1)i", "0Zd", "ZdZd0Zd"]
+    nexts = ["d", "f", "g", "Zd", "Zf", "Zg", "i", "q", "b", "c", "O", "x", "2d", "2f", "3Zd", "dd", "ff", "dZd", "fZf", "T{d}", "T{f}", "s", "p", "(1)d", ""]
+    st_dt = [k for k, d in enumerate(ds) if d['name'] in STATE_NAMES]
+    few = [k for k, d in enumerate(ds) if d['name'] in ('cdouble', 'cfloat', 'double', 'float', 'FF', 'SC', 'int')]
+    for p_ in prefixes:
+        for n_ in nexts:
+            f = p_ + n_
+            for k in few + rng.sample(st_dt, 8):
+                cases.append((k, f, ds[k]['size']))
+    # every spelling of one state struct against every other one, with the SOURCE struct's item size (what its exporter reports)
+    for ks in st_dt:
+        for f in good[ks]:
+            for kd in st_dt:
+                if kd != ks and (ds[kd]['size'] == ds[ks]['size'] or rng.random() < 0.2):
+                    cases.append((kd, f, ds[ks]['size']))
     allgood = sorted(set(f for v in good.values() for f in v))
     for _ in range(ctx.n(2500, 25000)):
         k = rng.randrange(len(ds))
@@ -593,7 +621,9 @@ def has_zero_count(f):
 # ------------------------------------------------------------------ the format leg
 def build_all(ctx):
     ds = dtypes()
-    groups = [ds[0:9], ds[9:17], ds[17:]]
+    base = [d for d in ds if d['name'] not in STATE_NAMES]
+    state = [d for d in ds if d['name'] in STATE_NAMES]
+    groups = [base[0:9], base[9:17], base[17:]] + [state[i:i + 8] for i in range(0, len(state), 8)]
     specs = [{'name': 'c17f%d' % i, 'source': fmt_module_source(g)} for i, g in enumerate(groups)]
     specs.append({'name': 'c17cg', 'source': contig_module_source()})
     res = cybuild.build_many(ctx, specs)
